@@ -250,6 +250,16 @@ class Guards:
         self.vars = {}      # fact key -> decl ids mentioned
         self.shape = {}     # fact key -> decl ids mentioned only through size()-like calls
         self.edge_facts = {}
+        # single-definition bool locals: `const bool ok = <expr>;` never assigned afterwards
+        self.bool_defs = {}
+        assigned = set()
+        for n in fn.walk():
+            for d, _ in written_decls(n):
+                assigned.add(d)
+        for n in fn.walk():
+            if n.get("k") == "VarDecl" and n.get("c") and n.get("d") not in assigned and \
+                    (n.get("ct") or n.get("t") or "").replace("const ", "") in ("bool", "_Bool"):
+                self.bool_defs[n["d"]] = n["c"][0]
         for bid in reach:
             b = cfg.blocks[bid]
             ss = cfg.succ[bid]
@@ -273,9 +283,9 @@ class Guards:
                         self._add_edge(bid, s, [("S", cn, "default")])
             elif len(ss) == 2 and ss[0] != ss[1]:
                 if ss[0] >= 0:
-                    self._add_edge(bid, ss[0], list(atomise(cn, True)))
+                    self._add_edge(bid, ss[0], self._expand_aliases(list(atomise(cn, True))))
                 if ss[1] >= 0:
-                    self._add_edge(bid, ss[1], list(atomise(cn, False)))
+                    self._add_edge(bid, ss[1], self._expand_aliases(list(atomise(cn, False))))
         self.block_writes = {}
         for bid in reach:
             w = set()
@@ -307,6 +317,17 @@ class Guards:
                     IN[b], OUT[b] = new_in, new_out
                     changed = True
         self.IN, self.OUT = IN, OUT
+
+    def _expand_aliases(self, raw, depth=0):
+        out = list(raw)
+        if depth > 3:
+            return out
+        for f in raw:
+            if f[0] == "T":
+                a = strip_all(f[1])
+                if a is not None and a.get("k") == "DeclRefExpr" and a.get("d") in self.bool_defs:
+                    out.extend(self._expand_aliases(list(atomise(self.bool_defs[a["d"]], f[2])), depth + 1))
+        return out
 
     def _weaken(self, fs):
         """Add the NAND facts implied by atomic facts (not a  =>  not (a and b)),
